@@ -25,12 +25,23 @@ R5 resolution is a function of the configuration at hand: the resolver functions
    memoising decorator, no mutable default argument, no `global`/`nonlocal` declaration, and never store into / call a
    mutating method on an object rooted at a module-level name (module dict, function attribute, imported module).  A
    result memoised outside the WorkflowConfig survives into the next configuration of the same process.
+
+Recognisers: the tests of R1 (`<config> is None`, `name in node`), R2 (`<key> in <visited>`) and R4 (`'step' in node`) are
+found through branch facts (sfverif.facts): the outcome of a CFG test that *implies* the canonical atom, whatever the
+spelling (`is not`/`not .. is`, `not in`/`not (.. in ..)`, swapped branches, guard clauses, conjuncts); where the clause
+says "exactly when" the other outcome must imply the negated atom.  The value of a `return` is followed through
+temporaries with reaching definitions (`ret = X; return ret` in several branches is one value per return).
+Known limit (refused as a finding, not accepted silently): a single-exit rewrite of get_binding_config
+(`ret = <fallback>` before the test, overwritten on the bound branch, one `return ret`) is not recognised as tied to
+the `no binding` outcome -- this needs path-sensitive value tracking.
 """
 
 from __future__ import annotations
 
 import ast
 
+from ..dataflow import reaching_defs
+from ..facts import atoms, edge_for
 from ..model import dotted, unparse
 from ..selftest import V
 from ._util_C import (
@@ -82,6 +93,62 @@ META = {
         "WorkflowConfig objects are only created through WorkflowConfig.__init__",
     ],
 }
+
+
+# --------------------------------------------------------------------------- spelling-independent helpers
+
+
+def _origins_at(f, expr, at=None, depth=5):
+    """Like `origins`, but flow-sensitive: a local name is replaced by the plain assignments that *reach* the place
+    where it is read (`at`: the expression/statement reading it, default `expr` itself), so that a temporary which is
+    assigned in several branches (`ret = A; return ret` / `ret = B; return ret`) denotes one value per read."""
+    at = expr if at is None else at
+    if isinstance(expr, ast.Name) and depth > 0:
+        ds = reaching_defs(f, expr.id, at)
+        if ds and all(d.kind in ("assign", "walrus") and d.index is None and d.stmt is not None for d in ds):
+            out = []
+            for d in ds:
+                out.extend(_origins_at(f, d.value, d.value, depth - 1))
+            return out
+    if isinstance(expr, ast.Await):
+        return _origins_at(f, expr.value, at, depth)
+    if isinstance(expr, ast.IfExp):
+        return _origins_at(f, expr.body, at, depth) + _origins_at(f, expr.orelse, at, depth)
+    return [expr]
+
+
+def _plain(e):
+    """`x` for the walrus `(x := e)`."""
+    return e.target if isinstance(e, ast.NamedExpr) else e
+
+
+def _cmp_atom(a, op):
+    """(left, right) of a canonical one-operator comparison atom `left <op> right`, else None."""
+    if isinstance(a, ast.Compare) and len(a.ops) == 1 and isinstance(a.ops[0], op):
+        return _plain(a.left), _plain(a.comparators[0])
+    return None
+
+
+def _tests_implying(g, pred, truth=True, scope=None, exact=False):
+    """[(test node, edge kind)]: the CFG tests one of whose outcomes (and only one) implies that a canonical atom with
+    pred(atom) has truth value `truth` -- whatever the spelling (`if a:..else:..` / `if not a:` / guard clause /
+    `a and b` / `not in` vs `not .. in`).  `exact`: the other outcome must imply the opposite truth value (the test
+    decides the atom; it is not merely a conjunct of a stronger condition)."""
+    out = []
+    for n in g.nodes.values():
+        if n.kind != "test" or n.ast is None or (scope is not None and not within(n.ast, scope)):
+            continue
+        e = edge_for(n.ast, lambda a, v: v is truth and pred(a))
+        if e is None:
+            continue
+        if exact and edge_for(n.ast, lambda a, v: v is (not truth) and pred(a)) != _other(e):
+            continue
+        out.append((n, e))
+    return out
+
+
+def _other(edge):
+    return "f" if edge == "t" else "t"
 
 
 # --------------------------------------------------------------------------- R1
@@ -160,26 +227,31 @@ def r1(ctx):
     # ---- fallback to LocalTarget() exactly when nothing is bound
     cfgvars = {s.id for s in srcs if isinstance(s, ast.Name)}
     g = f.cfg
-    tests = []
-    for n in g.nodes.values():
-        if n.kind == "test" and isinstance(n.ast, ast.Compare) and len(n.ast.ops) == 1 and is_name(n.ast.left) \
-                and n.ast.left.id in cfgvars and const(n.ast.comparators[0]) is None \
-                and isinstance(n.ast.ops[0], (ast.Is, ast.IsNot)):
-            tests.append(n)
-    ctx.require(len(tests) >= 1, "C28.R1: `<config> is (not) None` test not found in get_binding_config")
 
-    def none_edge(t):
-        return "t" if isinstance(t.ast.ops[0], ast.Is) else "f"
+    def is_none(a):
+        """canonical atom `<config> is None` (either operand order, walrus allowed)"""
+        lr = _cmp_atom(a, ast.Is)
+        if lr is None:
+            return False
+        x, y = lr
+        return (is_name(x) and x.id in cfgvars and const(y) is None) or (is_name(y) and y.id in cfgvars and const(x) is None)
+
+    # tests with an outcome that implies `<config> is None` (whatever the spelling: `is None`, `not ... is not None`,
+    # swapped branches, a conjunct of `a and b`); `exact`: the other outcome implies `<config> is not None`
+    tests = _tests_implying(g, is_none)
+    exact = _tests_implying(g, is_none, exact=True)
+    ctx.require(len(tests) >= 1, "C28.R1: `<config> is (not) None` test not found in get_binding_config")
 
     fallback = []
     for r in (n for n in f.body_nodes() if isinstance(n, ast.Return) and n.value is not None):
-        for o in origins(f, r.value):
+        # flow-sensitive: `ret = BindingConfig(...); return ret` in both branches is one value per return
+        for o in _origins_at(f, r.value, r):
             if not (isinstance(o, ast.Call) and resolves_to(p, f, o, "streamflow.core.config.BindingConfig")):
                 continue
             tg = kwarg(o, "targets", 0)
             elts = []
             if tg is not None:
-                for oo in origins(f, tg):
+                for oo in _origins_at(f, tg):
                     if isinstance(oo, ast.List):
                         elts = oo.elts
             if len(elts) == 1 and isinstance(elts[0], ast.Call) and resolves_to(p, f, elts[0], LOCAL) \
@@ -187,15 +259,15 @@ def r1(ctx):
                 fallback.append(r)
     # the fallback is reached only through the `is None` outcome of such a test ...
     ok = len(fallback) >= 1 and all(
-        any(only_via(g, t.id, none_edge(t), i) for t in tests for i in g.ids_of(r)) for r in fallback)
+        any(only_via(g, t.id, e, i) for t, e in tests for i in g.ids_of(r)) for r in fallback)
     ctx.ob("R1", "no binding on the path and its ancestors => BindingConfig(targets=[LocalTarget()])", ok, func=f,
-           node=tests[0].ast, instance="gbc:fallback",
+           node=tests[0][0].ast, instance="gbc:fallback",
            message="the local-execution fallback is missing or not tied to the `no binding found` outcome")
-    # ... and the `is None` outcome (of the first such test) always ends in the fallback return
+    # ... and the `is None` outcome (of a test whose other outcome means `bound`) always ends in the fallback return
     fb_ids = [i for r in fallback for i in g.ids_of(r)]
     ctx.ob("R1", "the `no binding` outcome always ends in the LocalTarget fallback",
-           bool(fb_ids) and any(all(must_pass(g, s, [g.exit], fb_ids) for s in branch(g, t.id, none_edge(t))) for t in tests),
-           func=f, node=tests[0].ast, instance="gbc:fallback-total")
+           bool(fb_ids) and any(all(must_pass(g, s, [g.exit], fb_ids) for s in branch(g, t.id, e)) for t, e in exact),
+           func=f, node=tests[0][0].ast, instance="gbc:fallback-total")
 
     # ---- propagate: overwrite-and-continue walk
     f = p.func(PROP)
@@ -237,13 +309,12 @@ def r1(ctx):
                node=d.stmt, instance="propagate:source", message=f"`{unparse(d.stmt)}` does not read `{nodevar}[{key_p}]`")
         okg = form == "get"  # dict.get(key, candidate) keeps the candidate when the key is absent
         if form == "subscript":
-            guards = [
-                n for n in g.nodes.values()
-                if n.kind == "test" and isinstance(n.ast, ast.Compare) and len(n.ast.ops) == 1
-                and isinstance(n.ast.ops[0], (ast.In, ast.NotIn)) and is_name(n.ast.left, key_p)
-                and is_name(n.ast.comparators[0], nodevar)
-            ]
-            okg = any(only_via(g, t.id, "t" if isinstance(t.ast.ops[0], ast.In) else "f", a_id) for t in guards)
+            def has_key(a):
+                lr = _cmp_atom(a, ast.In)
+                return lr is not None and is_name(lr[0], key_p) and is_name(lr[1], nodevar)
+
+            # exact: `if name in node and <more>:` is not "exactly when the node carries the key"
+            okg = any(only_via(g, t.id, e, a_id) for t, e in _tests_implying(g, has_key, exact=True))
         ctx.ob("R1", "overwrite happens exactly when the node carries the key", okg, func=f, node=d.stmt,
                instance="propagate:guard")
         ctx.ob("R1", "the node is entered before its own binding is examined (own path wins)",
@@ -334,16 +405,26 @@ def r2(ctx):
     wt = wt[0]
     adv_id = g.ids_of(adv)[0]
     body_first = branch(g, wt, "t")
+
+    def set_defs(v):
+        return [d for d in defs_of(f, v) if d.kind == "assign" and (
+            isinstance(d.value, ast.Set) or (isinstance(d.value, ast.Call) and is_name(d.value.func, "set")))]
+
+    def member(a):
+        """canonical atom `<key> in <local set>`"""
+        lr = _cmp_atom(a, ast.In)
+        return lr is not None and is_name(lr[1]) and bool(set_defs(lr[1].id))
+
+    # the visited test: a test of the walk one outcome of which implies `<key> not in <visited>` (the `new deployment`
+    # outcome), spelled `in`/`not in`/`not (.. in ..)`, with either branch order or as a guard clause.  Every revisit
+    # necessarily takes the *other* outcome, which is therefore the one that has to raise.
     members = []
-    for n in g.nodes.values():
-        if n.kind == "test" and n.ast is not None and within(n.ast, loop) and n.ast is not loop.test \
-                and isinstance(n.ast, ast.Compare) and len(n.ast.ops) == 1 and isinstance(n.ast.ops[0], (ast.In, ast.NotIn)) \
-                and is_name(n.ast.comparators[0]):
-            v = n.ast.comparators[0].id
-            sets = [d for d in defs_of(f, v) if d.kind == "assign" and (
-                isinstance(d.value, ast.Set) or (isinstance(d.value, ast.Call) and is_name(d.value.func, "set")))]
-            if sets:
-                members.append((n, v, sets))
+    for n, miss in _tests_implying(g, member, truth=False, scope=loop):
+        if n.ast is loop.test:
+            continue
+        atom = next(a for a, v in atoms(n.ast, miss == "t") if v is False and member(a))
+        k, vs = _cmp_atom(atom, ast.In)
+        members.append((n, miss, k, vs.id, set_defs(vs.id)))
     ctx.ob("R2", "the wraps walk tests each reached deployment against a visited set", len(members) == 1, func=f, node=loop,
            instance="check:visited-test", message="the wraps walk carries no visited-set membership test: cyclic chains are "
            "not rejected (and the walk never ends)")
@@ -355,10 +436,8 @@ def r2(ctx):
                    message="no visited-set membership test in the wraps walk")
         _gwd_reachability(ctx, p, loop_key=None)
         return
-    mt, vis, setdefs = members[0]
-    hit_edge = "t" if isinstance(mt.ast.ops[0], ast.In) else "f"
-    miss_edge = "f" if hit_edge == "t" else "t"
-    key = mt.ast.left
+    mt, miss_edge, key, vis, setdefs = members[0]
+    hit_edge = _other(miss_edge)
     # fresh per start deployment
     outer = [a for a in [n for n in f.body_nodes() if isinstance(n, ast.For)] if within(loop, a)]
     ctx.require(len(outer) >= 1, "C28.R2: the wraps walk is not inside the loop over deployments")
@@ -370,8 +449,19 @@ def r2(ctx):
     # every iteration is tested, after advancing, on the advanced deployment
     ctx.ob("R2", "every iteration of the walk passes the visited test", all(must_pass(g, s, [wt], [mt.id]) for s in body_first),
            func=f, node=mt.ast, instance="check:every-iteration")
+    # the key may be held in a temporary (`name = deployment['name']; if name in seen`): then the temporary must be
+    # (re)assigned after the advance in every iteration, too
+    key_src, key_fresh = [key], True
+    if is_name(key) and key.id != dvar:
+        kd = defs_of(f, key.id)
+        key_fresh = bool(kd) and all(
+            d.kind == "assign" and d.index is None and within(d.stmt, loop)
+            and must_pass(g, wt, g.ids_of(d.stmt), [adv_id]) for d in kd
+        ) and must_pass(g, wt, [mt.id], [i for d in kd for i in g.ids_of(d.stmt)])
+        key_src = [d.value for d in kd if d.value is not None]
     ctx.ob("R2", "the visited test examines the deployment just reached",
-           all(must_pass(g, s, [mt.id], [adv_id]) for s in body_first) and dvar in {x.id for x in ast.walk(key) if isinstance(x, ast.Name)},
+           must_pass(g, wt, [mt.id], [adv_id]) and key_fresh
+           and all(dvar in {x.id for x in ast.walk(k) if isinstance(x, ast.Name)} for k in key_src),
            func=f, node=mt.ast, instance="check:advanced-key")
     # revisit -> raise WorkflowDefinitionException
     hit = branch(g, mt.id, hit_edge)
@@ -382,10 +472,11 @@ def r2(ctx):
            instance="check:raise", message="a revisit of a deployment in the wraps chain does not end in a "
            "WorkflowDefinitionException")
     # miss -> recorded before the next iteration
+    key_texts = {unparse(key)} | {unparse(k) for k in key_src}
     adds = [
         n.id for n in g.nodes.values()
         if any(isinstance(c.func, ast.Attribute) and c.func.attr == "add" and is_name(c.func.value, vis)
-               and len(c.args) == 1 and unparse(c.args[0]) == unparse(key) for c in n.calls())
+               and len(c.args) == 1 and unparse(c.args[0]) in key_texts for c in n.calls())
     ]
     ok_add = bool(adds) and all(must_pass(g, s, [wt], adds) for s in branch(g, mt.id, miss_edge))
     ctx.ob("R2", "a new deployment is recorded in the visited set before the walk continues", ok_add, func=f, node=mt.ast,
@@ -595,12 +686,13 @@ def r4(ctx):
     ctx.require(bool(stores), "C28.R4: set_targets no longer writes node['step']")
     for s in stores:
         sid = g.ids_of(s)[0]
-        guards = [
-            n for n in g.nodes.values()
-            if n.kind == "test" and isinstance(n.ast, ast.Compare) and len(n.ast.ops) == 1 and const(n.ast.left) == "step"
-            and isinstance(n.ast.ops[0], (ast.In, ast.NotIn)) and is_name(n.ast.comparators[0], child)
-        ]
-        okg = any(only_via(g, t.id, "f" if isinstance(t.ast.ops[0], ast.In) else "t", sid) for t in guards)
+
+        def has_step(a):
+            lr = _cmp_atom(a, ast.In)
+            return lr is not None and const(lr[0]) == "step" and is_name(lr[1], child)
+
+        # reached only through an outcome that implies `'step' not in <child>` (any spelling / branch order)
+        okg = any(only_via(g, t.id, e, sid) for t, e in _tests_implying(g, has_step, truth=False))
         okv = is_name(s.value, tgt_p) and all(isinstance(t, ast.Subscript) and is_name(t.value, child) for t in s.targets)
         ctx.ob("R4", "set_targets fills in the inherited target only where no explicit binding exists", okg and okv, func=st,
                node=s, instance="set_targets:guard",
@@ -770,6 +862,17 @@ FLOORS = {"R1": 14, "R2": 10, "R3": 6, "R4": 9, "R5": 9}
 
 _FALLBACK_OLD = "        return BindingConfig(targets=targets, filters=[FilterConfig(name=c.name, type=c.type, config=c.config) for c in config.get('filters')])\n    else:\n        return BindingConfig(targets=[LocalTarget()])"
 
+_TEMPRET_NEW = (
+    "        _sf_ret = BindingConfig(targets=targets, filters=[FilterConfig(name=c.name, type=c.type, config=c.config) "
+    "for c in config.get('filters')])\n        return _sf_ret\n    else:\n"
+    "        _sf_ret = BindingConfig(targets=[LocalTarget()])\n        return _sf_ret"
+)
+_VISITED_OLD = (
+    "if deployment['name'] in deployments:\n                raise WorkflowDefinitionException(f'The deployment "
+    "`{deployment['name']}` leads to a circular reference: Recursive deployment definitions are not allowed.')\n"
+    "            else:\n                deployments.add(deployment['name'])"
+)
+
 VARIANTS = [
     # ---- R1
     V("get instead of propagate", UFILE, GBC, "workflow_config.propagate(path, target_type)", "workflow_config.get(path, target_type)",
@@ -873,4 +976,46 @@ VARIANTS = [
       "    chain = {}\n    chain[deployment.get(_NAME)] = workdir\n    return workdir", None, append="_NAME = 'name'\n"),
     V("per-call mutable locals in get_binding_config", UFILE, GBC, "path = PurePosixPath(name)",
       "trace = []\n    trace.append(name)\n    path = PurePosixPath(name)", None),
+    # ---- benign: mechanical refactorings (tools/benign_battery.py: tempret, ifswap) and relatives
+    V("tempret: every return of get_binding_config through one temporary", UFILE, GBC, _FALLBACK_OLD, _TEMPRET_NEW, None),
+    V("ifswap: visited test negated, branches swapped", CFILE, CHECK, _VISITED_OLD,
+      "if not deployment['name'] in deployments:\n                deployments.add(deployment['name'])\n            else:\n"
+      "                raise WorkflowDefinitionException('circular reference')", None),
+    V("visited test on a temporary key assigned after the advance", CFILE, CHECK, _VISITED_OLD,
+      "reached = deployment['name']\n            if not reached in deployments:\n                deployments.add(reached)\n"
+      "            else:\n                raise WorkflowDefinitionException('circular reference')", None),
+    V("ifswap: `not <config> is not None` guard for the fallback, `not <config> is None` for the bound case", UFILE, GBC,
+      "    if config is not None:\n        targets = []",
+      "    if not config is not None:\n        return BindingConfig(targets=[LocalTarget()])\n    if not config is None:\n        targets = []",
+      None),
+    V("ifswap + tempret: fallback first, both through a temporary", UFILE, GBC,
+      "    if config is not None:\n        targets = []",
+      "    if not config is not None:\n        _sf_ret = BindingConfig(targets=[LocalTarget()])\n        return _sf_ret\n"
+      "    if None is not config:\n        targets = []", None),
+    V("ifswap: propagate guard negated with an else branch", CFILE, PROP, "if name in current_node:\n            value = current_node[name]",
+      "if not name in current_node:\n            pass\n        else:\n            value = current_node[name]", None),
+    V("ifswap: set_targets guard negated with an else branch", CFILE, f"{CFGM}.set_targets",
+      "if 'step' not in node:\n            node['step'] = target",
+      "if 'step' in node:\n            pass\n        else:\n            node['step'] = target", None),
+    # ---- breaking: the polarity of a re-spelled test is evaluated, a temporary is followed per return
+    V("tempret shape, fallback value dropped", UFILE, GBC, _FALLBACK_OLD,
+      _TEMPRET_NEW.replace("_sf_ret = BindingConfig(targets=[LocalTarget()])", "_sf_ret = BindingConfig(targets=[])"), "R1"),
+    V("tempret shape, the fallback temporary is overwritten by the bound branch's leftovers", UFILE, GBC, _FALLBACK_OLD,
+      _TEMPRET_NEW.replace("_sf_ret = BindingConfig(targets=[LocalTarget()])",
+                           "_sf_ret = BindingConfig(targets=[LocalTarget()])\n        _sf_ret = BindingConfig(targets=[], filters=[])"), "R1"),
+    V("negated None test without swapping the branches", UFILE, GBC, "    if config is not None:\n        targets = []",
+      "    if not config is not None:\n        targets = []", "R1"),
+    V("negated visited test without swapping the branches", CFILE, CHECK, "if deployment['name'] in deployments:",
+      "if not deployment['name'] in deployments:", "R2"),
+    V("visited test on a temporary key read before the advance", CFILE, CHECK,
+      "deployment = self.deployments[wraps if isinstance(wraps, str) else wraps['deployment']]\n            " + _VISITED_OLD,
+      "reached = deployment['name']\n            deployment = self.deployments[wraps if isinstance(wraps, str) else wraps['deployment']]\n"
+      "            if reached in deployments:\n                raise WorkflowDefinitionException('circular reference')\n"
+      "            else:\n                deployments.add(reached)", "R2"),
+    V("visited test before the advance", CFILE, CHECK,
+      "deployment = self.deployments[wraps if isinstance(wraps, str) else wraps['deployment']]\n            " + _VISITED_OLD,
+      _VISITED_OLD + "\n            deployment = self.deployments[wraps if isinstance(wraps, str) else wraps['deployment']]", "R2"),
+    V("visited test weakened by a conjunct", CFILE, CHECK, "if deployment['name'] in deployments:",
+      "if deployment['name'] in deployments and isinstance(wraps, str):", "R2"),
+    V("negated set_targets guard without swapping", CFILE, f"{CFGM}.set_targets", "if 'step' not in node:", "if not 'step' not in node:", "R4"),
 ]
